@@ -184,6 +184,12 @@ class HardcodeRepeatLists(JMCFunction):
         string_lists, _ = self.datapack.parse_lists(
             self.raw_args["stringLists"].token, self.tokenizer, TokenType.STRING
         )
+        if not string_lists:
+            raise JMCValueError(
+                "Expected at least 1 list in stringLists (got an empty list)",
+                self.raw_args["stringLists"].token,
+                self.tokenizer,
+            )
         if len(index_strings) != len(string_lists) + 1:
             raise JMCValueError(
                 f"Size of parameters of arrow function in 'function' ({len(index_strings)}) + 1 doesn't match the size of stringLists({len(string_lists)})",
